@@ -121,10 +121,11 @@ def run_case(case, ctx):
 				random.Random(case['seed'] + 17).shuffle(order)    # row (primary key) order is unrelated to membership and to signature order
 			for j in order:
 				g = genomes[j]
-				obj = Genome(key=g['key'], description=f'desc {j}', ncbi_db='assembly',
-				             ncbi_id=None if (null_j == j and attr == 'ncbi_id') else g['ncbi_id'],
-				             genbank_acc=None if (null_j == j and attr == 'genbank_acc') else g['genbank_acc'],
-				             refseq_acc=None if (null_j == j and attr == 'refseq_acc') else g['refseq_acc'])
+				outsider_null = (not g['inset']) and (case['seed'] + j) % 2 == 0      # non-members may lack identifiers: irrelevant to the set
+				obj = Genome(key=g['key'], description=f'desc {j}', ncbi_db=None if outsider_null else 'assembly',
+				             ncbi_id=None if ((null_j == j and attr == 'ncbi_id') or outsider_null) else g['ncbi_id'],
+				             genbank_acc=None if ((null_j == j and attr == 'genbank_acc') or outsider_null) else g['genbank_acc'],
+				             refseq_acc=None if ((null_j == j and attr == 'refseq_acc') or outsider_null) else g['refseq_acc'])
 				if g['inset']:
 					s.add(AnnotatedGenome(genome=obj, genome_set=gset, taxon=taxon, organism='org'))
 				else:
